@@ -495,7 +495,7 @@ func genExtension(g *prng.R, idx int) extSpec {
 func main() {
 	flag.Parse()
 	r := verdict.New("C15", *tier, "exploration")
-	r.Rule = "astool built from the working tree and run in fresh processes (fresh map-iteration seeds) on the four shipped vocabularies: all runs byte-identical, generated file set and comment-free syntax trees equal to the shipped streams package; seeded random extension vocabularies (1..6 types with single and multiple parents, 1..8 properties with random domains, ranges mixing types and literal kinds, functional or not, natural-language or not, withheld-from lists, disjointWith declared on one side only between extension types and against leaf ActivityStreams types, a typeless value kind with a holder property ranged over it alone; the first vocabulary of every run has a fixed skeleton: a chain of types each extending a referenced type and the previous local type, a root type declaring itself disjoint with the chain's last type, a typeless kind): astool must succeed, the tree must compile, and the streamsmon engine built against that tree with the oracle extended by the extension file must pass C13, C12 and C01; the first type and the first property of every extension carry a name the go tool gives meaning to at the end of a file name (Test, ios, amd64 ...); non-trivial = a generator run whose output was compared, or an extension tree that was built and judged; distinct by run / extension"
+	r.Rule = "astool built from the working tree and run in fresh processes (fresh map-iteration seeds) on the four shipped vocabularies: all runs byte-identical, generated file set and comment-free syntax trees equal to the shipped streams package; seeded random extension vocabularies (1..6 types with single and multiple parents, 1..8 properties with random domains, ranges mixing types and literal kinds, functional or not, natural-language or not, withheld-from lists, disjointWith declared on one side only between extension types and against leaf ActivityStreams types, a typeless value kind with a holder property ranged over it alone and a typed type below it, notes with percent signs at the end of a line and of the text; the first vocabulary of every run has a fixed skeleton: a chain of types each extending a referenced type and the previous local type, a root type declaring itself disjoint with the chain's last type, a typeless kind): astool must succeed, the tree must compile, and the streamsmon engine built against that tree with the oracle extended by the extension file must pass C13, C12 and C01; the first type and the first property of every extension carry a name the go tool gives meaning to at the end of a file name (Test, ios, amd64 ...); non-trivial = a generator run whose output was compared, or an extension tree that was built and judged; distinct by run / extension"
 	r.Assumptions = []string{"extension vocabularies stay inside the constructs the shipped extension files demonstrate; literal ranges are kept lexically unambiguous", "comments are ignored in the shipped comparison (go/parser + go/printer)"}
 	repo := verdict.Repo()
 	root := verdict.Root()
